@@ -32,3 +32,33 @@ theorem step_insts_other (s s' : Sys) (e : Ev) (h : step s e = some s') (j : Nat
     (try (intro hh; exact absurd hh.symm hj))
 
 end Seq
+
+namespace Seq
+
+theorem admission_cases (n : Nat) (p : List Slot) (l : Bool) :
+    admission n p l = .ratelimit ∨ admission n p l = .sequencer := by
+  unfold admission; split <;> (try split) <;> simp
+
+/-- what a `submitted` event can do to the state -/
+theorem submitted_char (s s' : Sys) (i eid key : Nat) (low : Bool) (iss : List Nat) (src : Src)
+    (h : step s (.submitted i eid key low iss src) = some s') :
+    (s.insts i).evictPending = false ∧
+    (s' = s ∨ s' = s.setInst i { (s.insts i) with issuerFailed := false } ∨
+     (¬ (s.poolSize > 0 ∧ (s.insts i).pool.length ≥ s.poolSize) ∧
+        s' = s.setInst i { (s.insts i) with pool := (s.insts i).pool ++ [⟨eid, key, low⟩] }) ∨
+     ((s.poolSize > 0 ∧ (s.insts i).pool.length ≥ s.poolSize) ∧ admission s.poolSize (s.insts i).pool low = .sequencer ∧
+        s' = s.setInst i { (s.insts i) with pool := (s.insts i).pool ++ [⟨eid, key, low⟩], evictPending := true })) := by
+  simp only [step] at h
+  split at h
+  · cases h
+  · rename_i hup
+    have hev : (s.insts i).evictPending = false := by
+      cases hx : (s.insts i).evictPending <;> simp_all
+    refine ⟨hev, ?_⟩
+    repeat' split at h
+    all_goals (first | cases h | (injection h with h; subst h) | skip)
+    all_goals (first | exact Or.inl rfl | exact Or.inr (Or.inl rfl) | skip)
+    all_goals simp_all
+    all_goals (right; right; exact (admission_cases _ _ _).resolve_left (by assumption))
+
+end Seq
